@@ -101,9 +101,45 @@ func fscanChecker(cr *checkRun) {
 			case *ast.IncDecStmt:
 				checkLHS(s.X, s)
 			case *ast.CallExpr:
+				if se, ok := s.Fun.(*ast.SelectorExpr); ok {
+					if sel := info.Selections[se]; sel != nil && sel.Kind() == types.MethodVal {
+						if id, ok := se.X.(*ast.Ident); ok && isGlobal(id) {
+							if fn, ok := sel.Obj().(*types.Func); ok {
+								if sig, ok := fn.Type().(*types.Signature); ok && sig.Recv() != nil {
+									if _, ptr := sig.Recv().Type().Underlying().(*types.Pointer); ptr && !sharedReadOnlyType(info.TypeOf(se.X)) {
+										txt := nodeText(prog.Fset, s)
+										if len(txt) > 60 {
+											txt = txt[:60]
+										}
+										occ[txt]++
+										name := fmt.Sprintf("%s#frame.global.method@%s", shortName(full), txt)
+										if occ[txt] > 1 {
+											name += fmt.Sprintf("#%d", occ[txt])
+										}
+										sites = append(sites, site{name, false, "calls a pointer-receiver method on package-level variable " + id.Name + " (may mutate shared state)"})
+									}
+								}
+							}
+						}
+					}
+				}
 				if id, ok := s.Fun.(*ast.Ident); ok && (id.Name == "copy" || id.Name == "delete") && len(s.Args) > 0 {
 					if _, isB := info.ObjectOf(id).(*types.Builtin); isB {
 						checkLHS(s.Args[0], s)
+					}
+				}
+			case *ast.UnaryExpr:
+				// &G: the address of a package-level variable escapes into a call or a pointer - whoever gets it can write
+				// shared state (e.g. a scratch buffer hoisted out of a function "to save an allocation")
+				if s.Op == token.AND {
+					if id := rootIdent(s.X); id != nil && isGlobal(id) {
+						txt := nodeText(prog.Fset, s)
+						occ[txt]++
+						name := fmt.Sprintf("%s#frame.global.addr@%s", shortName(full), txt)
+						if occ[txt] > 1 {
+							name += fmt.Sprintf("#%d", occ[txt])
+						}
+						sites = append(sites, site{name, false, "takes the address of package-level variable " + id.Name + " (shared mutable state)"})
 					}
 				}
 			case *ast.RangeStmt:
@@ -141,4 +177,14 @@ func fscanChecker(cr *checkRun) {
 	}
 	cr.custom = append(cr.custom, map[string]interface{}{"checker": "fscan", "sites_and_functions_examined": len(sites), "ok": nOK, "failed": failed,
 		"what": "F obligations: no store whose root is a package-level variable outside init(); no iteration over a map (allow-list with justification)"})
+}
+
+// sharedReadOnlyType: pointer-receiver types whose methods do not mutate observable state and are documented safe for
+// concurrent use (allow-list).
+func sharedReadOnlyType(t types.Type) bool {
+	switch strings.TrimPrefix(types.TypeString(t, nil), "*") {
+	case "regexp.Regexp", "sync.Mutex", "sync.RWMutex", "sync.Once", "log.Logger":
+		return true
+	}
+	return false
 }
